@@ -2366,6 +2366,16 @@ class Env:
         I = self.ind(indent)
         if st.orelse:
             self.err(st, 'while/else')
+        # `while True: B; if C: break`  is  `B; while not C: B`  (B without break/continue)
+        if isinstance(st.test, ast.Constant) and st.test.value is True and st.body and isinstance(st.body[-1], ast.If) \
+                and not st.body[-1].orelse and len(st.body[-1].body) == 1 and isinstance(st.body[-1].body[0], ast.Break) \
+                and not any(isinstance(n, (ast.Break, ast.Continue)) for s in st.body[:-1] for n in ast.walk(s)) \
+                and not contains_return(st.body):
+            b = list(st.body[:-1])
+            w = ast.While(test=ast.UnaryOp(op=ast.Not(), operand=st.body[-1].test), body=b, orelse=[])
+            ast.copy_location(w, st)
+            ast.fix_missing_locations(w)
+            return self.block(b + [w] + rest, indent, tail)
         if any(isinstance(n, (ast.Break, ast.Continue)) for s in st.body for n in ast.walk(s)):
             self.err(st, 'break/continue in while')
         if not self.raising:
